@@ -6,11 +6,13 @@ package xmpp_test
 
 import (
 	"bytes"
+	"context"
 	"encoding/xml"
 	"fmt"
 	"io"
 	"strings"
 	"testing"
+	"time"
 
 	"mellium.im/xmlstream"
 	"mellium.im/xmpp"
@@ -137,4 +139,67 @@ func TestGvcAdapterServeOwnFromBehindPrefixedFrom(t *testing.T) {
 		return
 	}
 	fmt.Println("NOT-REPRODUCED serve: the own bare from address is presented as empty")
+}
+
+// A reply that arrives when its requester's context has already ended (the
+// requester is still registered, blocked behind the output lock) is a response
+// nobody waits for: it must reach the handler.
+func TestGvcAdapterServeReplyAfterRequesterGaveUp(t *testing.T) {
+	pr, pw := io.Pipe()
+	var out bytes.Buffer
+	s := xmpptest.NewClientSession(0, struct {
+		io.Reader
+		io.Writer
+	}{pr, &out})
+	seen := make(chan string, 8)
+	go func() {
+		_ = s.Serve(xmpp.HandlerFunc(func(t xmlstream.TokenReadEncoder, start *xml.StartElement) error {
+			seen <- start.Name.Local
+			return nil
+		}))
+		close(seen)
+	}()
+	w := s.TokenWriter() // holds the output lock: the request below registers its id and then waits for the lock
+	ctx, cancel := context.WithCancel(context.Background())
+	done := make(chan struct{})
+	go func() {
+		defer close(done)
+		resp, err := s.SendIQ(ctx, stanza.IQ{ID: "x1", Type: stanza.GetIQ}.Wrap(nil))
+		if err == nil && resp != nil {
+			resp.Close()
+		}
+	}()
+	time.Sleep(100 * time.Millisecond)
+	cancel()
+	time.Sleep(50 * time.Millisecond)
+	io.WriteString(pw, `<iq xmlns="jabber:client" type="result" id="x1"/><message xmlns="jabber:client" id="after"/>`)
+	var got []string
+	timeout := time.After(2 * time.Second)
+loop:
+	for len(got) < 2 {
+		select {
+		case n, ok := <-seen:
+			if !ok {
+				break loop
+			}
+			got = append(got, n)
+		case <-timeout:
+			break loop
+		}
+	}
+	w.Close()
+	pw.Close()
+	<-done
+	sawIQ := false
+	for _, n := range got {
+		if n == "iq" {
+			sawIQ = true
+		}
+	}
+	if !sawIQ {
+		fmt.Printf("REPRODUCED serve: the reply <iq type='result' id='x1'/> arrived after its requester's context had ended (requester still registered, blocked behind the output lock): it reached neither the requester nor the handler (handler saw %v)\n", got)
+		t.Fail()
+		return
+	}
+	fmt.Printf("NOT-REPRODUCED serve: the late reply reached the handler (handler saw %v)\n", got)
 }
